@@ -1,9 +1,9 @@
 SPECIFICATION MCSpec
 CONSTANTS
- Nodes = {1, 2}
+ Nodes = {1}
  SCalls = {1, 2, 3}
  MaxCached = 1
- DevRealClash = TRUE
+ DevRealClash = FALSE
  DevOrder = FALSE
  DevAliased = FALSE
  DevLookup = FALSE
@@ -16,14 +16,14 @@ CONSTANTS
  VDefect = "none"
  Mode = "S"
  MCSPE = 2
- MCEpochs <- E0
+ MCEpochs <- E01
  MCSlots = {1}
  MCSOps <- OpsDuties
- MCValSets <- A123
- MCMaxReal = 1
+ MCValSets <- A123or13
+ MCMaxReal = 0
  MCBlocks <- Blk1
  MCErrs = FALSE
- MCScribble = TRUE
+ MCScribble = FALSE
  MCGraffiti <- GBoth
  MCVers <- VCap
  MCLOps <- LOpsConn
@@ -32,6 +32,6 @@ CONSTANTS
  MCCancel = FALSE
  MCVOps <- VOpsAll
  MCVAns <- VAOk
-INVARIANTS S_NoRealClash
+INVARIANTS Safety
 CONSTRAINT Ordered
 CHECK_DEADLOCK FALSE
